@@ -77,6 +77,10 @@ def generate(rng, tier, run, seed=0):
 
 # ------------------------------------------------------------------ execution
 
+DECOY = ('ISA*00*          *00*          *ZZ*DECOY          *ZZ*DECOY          *040102*1230*U*00401*000000077*0*P*:~'
+         'GS*HC*D*D*20040102*1230*77*X*004010X098A1~GE*0*77~IEA*1*000000077~\n')
+
+
 def run_norm(argv, enc=None):
     """run x12norm.main() in-process -> stdout text.  enc: encoding of the simulated stdout device (a TextIOWrapper over
     a byte sink, as the real sys.stdout is); what the device received is read back one character per byte, the way the
@@ -189,6 +193,10 @@ def execute(case):
             with open(p, 'w', encoding='latin-1', newline='') as f:
                 f.write(doc['text'])
             paths.append(p)
+            if case.get('odd_names'):
+                # a neighbour that the name, read as a glob pattern, would match: it is not an input and must stay untouched
+                with open(os.path.join(d, 'claim%d.x12' % i), 'w', encoding='latin-1', newline='') as f:
+                    f.write(DECOY)
             for k in doc['faults']:
                 out.fault(k)
         argv = []
@@ -253,6 +261,11 @@ def execute(case):
             if so != '':
                 out.violate('dest', 'stdout-with-i', 'text on stdout although -i was given')
             produced = [open(p, encoding='latin-1', newline='').read() for p in paths]
+        if case.get('odd_names'):
+            out.fault('glob-characters-in-name')
+            for i in range(len(paths)):
+                if open(os.path.join(d, 'claim%d.x12' % i), encoding='latin-1', newline='').read() != DECOY:
+                    out.violate('dest', 'neighbour-touched', 'a file that was not named on the command line was rewritten')
         for i, doc in enumerate(case['docs']):
             n0 = len(out.violations)
             check_doc(doc, produced[i], case, out, 'file %d (%s)' % (i, ' '.join(argv[:-len(paths)]) or 'no options'))
